@@ -7,6 +7,10 @@ import (
 	"runtime"
 	"sync"
 	"sync/atomic"
+	"time"
+	"unsafe"
+
+	"github.com/couchbase/nitro/skiplist"
 
 	"nitroverif/internal/rt"
 )
@@ -32,6 +36,17 @@ func runC09(c *rt.C) {
 	var stopChurn int32
 	var churnWG sync.WaitGroup
 	if churn {
+		// widen the window between a delete's mark and its unlink pass (and before the mark), so
+		// the cursors meet marked-but-still-linked invisible nodes, not only fully unlinked ones
+		var hits uint64
+		skiplist.VerifSetHook(func(id int, arg unsafe.Pointer) {
+			if id == skiplist.VpDelMarked || id == skiplist.VpDelBeforeMark {
+				if n := atomic.AddUint64(&hits, 1); n%3 != 0 {
+					time.Sleep(time.Duration(20+n%7*30) * time.Microsecond)
+				}
+			}
+		})
+		defer skiplist.VerifSetHook(nil)
 		churnWG.Add(1)
 		go func() {
 			defer churnWG.Done()
